@@ -95,7 +95,15 @@ func (d *Digest) Add(parts ...string) {
 	if d.Keep {
 		d.Log = append(d.Log, line)
 	}
+	if KeepOutcomeLog {
+		OutcomeLog = append(OutcomeLog, line)
+	}
 }
+
+// KeepOutcomeLog makes every digest also append its lines to OutcomeLog (set per request by the
+// worker when the supervisor wants to show where two executions of a scenario differ).
+var KeepOutcomeLog bool
+var OutcomeLog []string
 
 func (d *Digest) Hex() string { return hex.EncodeToString(d.h[:8]) }
 
@@ -127,6 +135,7 @@ type RunResult struct {
 	// executed schedule made explicit so that replay does not depend on the generator).
 	AltScenario json.RawMessage `json:"-"`
 	Poisoned    bool            `json:"poisoned,omitempty"` // parked goroutines left behind: the worker must be replaced
+	Log         []string        `json:"log,omitempty"`      // outcome log lines (only when requested)
 }
 
 func (r *RunResult) Fault(kind string) {
